@@ -9,6 +9,7 @@ import SmrtVerif.Model.CoherentFlat
 import SmrtVerif.Proofs.Fresnel
 import SmrtVerif.Gen.C12
 import SmrtVerif.Proofs.RealTransc
+import SmrtVerif.Proofs.CoherentSlab
 import Mathlib.Tactic.FieldSimp
 import Mathlib.Tactic.Ring
 import Mathlib.Tactic.Linarith
@@ -427,7 +428,7 @@ example (f : ℝ) (e1 : Cx ℝ) : ¬ (0.1 : ℝ) < ksigma f e1 0 := by unfold ks
 
 /-! ### `coherent_flat`: the loss-free budget closes exactly, whatever the thickness (wave 7) -/
 
-namespace Slab
+section Slab
 open Coherent
 theorem add_re (a b : Cx ℝ) : (a + b).re = a.re + b.re := rfl
 theorem add_im (a b : Cx ℝ) : (a + b).im = a.im + b.im := rfl
@@ -505,6 +506,135 @@ example : (⟨0, 1⟩ : Cx ℝ).abs2 = 1 ∧ ((one : Cx ℝ) + (⟨0.3, 0⟩ : C
   refine ⟨by simp [Cx.abs2], ?_, by norm_num, by norm_num⟩
   simp only [Cx.abs2, add_re, add_im, mul_re, mul_im, one_re, one_im]
   norm_num
+/-- V-polarised counterpart of `coherent_flat_lossless_H_partial` -/
+theorem coherent_flat_lossless_V_partial (f : ℝ) (e0 es et : Cx ℝ) (d mu r01 r1t : ℝ)
+    (h01 : rv e0 es mu = ⟨r01, 0⟩) (h1t : rv es et (muClamped e0 es mu) = ⟨r1t, 0⟩)
+    (hph : (phase f e0 es d mu).im = 0)
+    (hK : muT e0 es et mu / mu / nt e0 et = (1 - r01) * (1 - r1t) / ((1 + r01) * (1 + r1t)))
+    (hden : ((one : Cx ℝ) + (⟨r01, 0⟩ : Cx ℝ) * ⟨r1t, 0⟩ * exp2Kd f e0 es d mu).abs2 ≠ 0) (ha : 1 + r01 ≠ 0) (hb : 1 + r1t ≠ 0) :
+    specV f e0 es et d mu + transV f e0 es et d mu = 1 := by
+  obtain ⟨h1, h2⟩ := pure_phase f e0 es d mu hph
+  have key := slab_lossless_core r01 r1t (expKd f e0 es d mu) (exp2Kd f e0 es d mu) h2 h1 hden ha hb
+  unfold specV transV Coherent.Rv Tvc
+  rw [h01, h1t]
+  have : (slabT (⟨r01, 0⟩ : Cx ℝ) ⟨r1t, 0⟩ (expKd f e0 es d mu) (exp2Kd f e0 es d mu)).abs2 * muT e0 es et mu / mu / nt e0 et
+       = (slabT (⟨r01, 0⟩ : Cx ℝ) ⟨r1t, 0⟩ (expKd f e0 es d mu) (exp2Kd f e0 es d mu)).abs2 * (muT e0 es et mu / mu / nt e0 et) := by ring
+  rw [this, hK]
+  exact key
+
+/-- **the loss-free budget of `CoherentFlat` (H polarisation) closes exactly, whatever the slab thickness and the frequency**: real positive
+    permittivities in the three media, propagating waves in all three (Snell-conjugate cosines `mu0, mu1, mu2'`, the slab cosine not below
+    the code's clamp `1e-4`). -/
+theorem coherent_flat_lossless_H (f a0 a1 a2 d mu0 mu1 mu2' : ℝ) (h0 : 0 < a0) (h1 : 0 < a1) (h2 : 0 < a2)
+    (hm0 : 0 < mu0) (hm1 : 1e-4 ≤ mu1) (hm2 : 0 < mu2')
+    (s01 : a0 * (1 - mu0 * mu0) = a1 * (1 - mu1 * mu1)) (s12 : a1 * (1 - mu1 * mu1) = a2 * (1 - mu2' * mu2')) :
+    specH f (⟨a0, 0⟩ : Cx ℝ) ⟨a1, 0⟩ ⟨a2, 0⟩ d mu0 + transH f (⟨a0, 0⟩ : Cx ℝ) ⟨a1, 0⟩ ⟨a2, 0⟩ d mu0 = 1 := by
+  have hm1' : 0 < mu1 := lt_of_lt_of_le (by norm_num) hm1
+  have hmuS : muSlab (⟨a0, 0⟩ : Cx ℝ) ⟨a1, 0⟩ mu0 = mu1 := mu2_real a0 a1 mu0 mu1 h0 h1 hm1' s01
+  have hmc : muClamped (⟨a0, 0⟩ : Cx ℝ) ⟨a1, 0⟩ mu0 = mu1 := by
+    unfold muClamped; rw [hmuS, if_neg (not_lt.mpr hm1)]
+  set p0 := Real.sqrt a0 * mu0 with hp0
+  set p1 := Real.sqrt a1 * mu1 with hp1
+  set p2 := Real.sqrt a2 * mu2' with hp2
+  have p0pos : 0 < p0 := mul_pos (Real.sqrt_pos.mpr h0) hm0
+  have p1pos : 0 < p1 := mul_pos (Real.sqrt_pos.mpr h1) hm1'
+  have p2pos : 0 < p2 := mul_pos (Real.sqrt_pos.mpr h2) hm2
+  have h01 : rh (⟨a0, 0⟩ : Cx ℝ) ⟨a1, 0⟩ mu0 = ⟨(p0 - p1) / (p0 + p1), 0⟩ := rh_real a0 a1 mu0 mu1 h0 h1 hm0 hm1' s01
+  have h1t : rh (⟨a1, 0⟩ : Cx ℝ) ⟨a2, 0⟩ (muClamped (⟨a0, 0⟩ : Cx ℝ) ⟨a1, 0⟩ mu0) = ⟨(p1 - p2) / (p1 + p2), 0⟩ := by
+    rw [hmc]; exact rh_real a1 a2 mu1 mu2' h1 h2 hm1' hm2 s12
+  have hph : (phase f (⟨a0, 0⟩ : Cx ℝ) ⟨a1, 0⟩ d mu0).im = 0 := by
+    unfold phase; rw [csqrt_real_nonneg a1 h1.le]; simp [Cx.smul]
+  obtain ⟨b01l, b01u⟩ := face_bounds p0 p1 p0pos p1pos
+  obtain ⟨b1tl, b1tu⟩ := face_bounds p1 p2 p1pos p2pos
+  have hK : muT (⟨a0, 0⟩ : Cx ℝ) ⟨a1, 0⟩ ⟨a2, 0⟩ mu0 / mu0 * nt (⟨a0, 0⟩ : Cx ℝ) ⟨a2, 0⟩
+      = (1 - (p0 - p1) / (p0 + p1)) * (1 - (p1 - p2) / (p1 + p2)) / ((1 + (p0 - p1) / (p0 + p1)) * (1 + (p1 - p2) / (p1 + p2))) := by
+    have hmT : muT (⟨a0, 0⟩ : Cx ℝ) ⟨a1, 0⟩ ⟨a2, 0⟩ mu0 = mu2' := by
+      unfold muT; rw [hmc]; exact mu2_real a1 a2 mu1 mu2' h1 h2 hm2 s12
+    have hnt : nt (⟨a0, 0⟩ : Cx ℝ) ⟨a2, 0⟩ = Real.sqrt a2 / Real.sqrt a0 := by
+      unfold nt; rw [real_div_real _ _ h0.ne', csqrt_real_nonneg _ (div_nonneg h2.le h0.le), Real.sqrt_div h2.le]
+    rw [hmT, hnt]
+    have s0 : 0 < Real.sqrt a0 := Real.sqrt_pos.mpr h0
+    have e1 : mu2' / mu0 * (Real.sqrt a2 / Real.sqrt a0) = p2 / p0 := by
+      rw [hp2, hp0]; field_simp
+    rw [e1]
+    exact K_algebra p0 p1 p2 p0pos p1pos p2pos
+  have hden : ((one : Cx ℝ) + (⟨(p0 - p1) / (p0 + p1), 0⟩ : Cx ℝ) * ⟨(p1 - p2) / (p1 + p2), 0⟩
+      * exp2Kd f (⟨a0, 0⟩ : Cx ℝ) ⟨a1, 0⟩ d mu0).abs2 ≠ 0 := by
+    obtain ⟨_, he2⟩ := pure_phase f (⟨a0, 0⟩ : Cx ℝ) ⟨a1, 0⟩ d mu0 hph
+    set e := exp2Kd f (⟨a0, 0⟩ : Cx ℝ) ⟨a1, 0⟩ d mu0 with he
+    set r01 := (p0 - p1) / (p0 + p1) with hr01
+    set r1t := (p1 - p2) / (p1 + p2) with hr1t
+    have hD : ((one : Cx ℝ) + (⟨r01, 0⟩ : Cx ℝ) * ⟨r1t, 0⟩ * e).abs2 = 1 + 2 * (r01 * r1t) * e.re + (r01 * r1t) ^ 2 := by
+      have he2' := he2
+      simp only [Cx.abs2, add_re, add_im, mul_re, mul_im, one_re, one_im] at he2' ⊢
+      linear_combination (r01 ^ 2 * r1t ^ 2) * he2'
+    rw [hD]
+    have hrl : -1 < r01 * r1t := by nlinarith [mul_pos (sub_pos.mpr b01u) (sub_pos.mpr b1tu), mul_pos (by linarith : 0 < 1 + r01) (by linarith : 0 < 1 + r1t)]
+    have hru : r01 * r1t < 1 := by nlinarith [mul_pos (sub_pos.mpr b01u) (by linarith : 0 < 1 + r1t), mul_pos (by linarith : 0 < 1 + r01) (sub_pos.mpr b1tu)]
+    exact (den_pos (r01 * r1t) e he2 hrl hru).ne'
+  exact coherent_flat_lossless_H_partial f _ _ _ d mu0 _ _ h01 h1t hph hK hden (by linarith) (by linarith)
+
+/-- **the loss-free budget of `CoherentFlat` (V polarisation) closes exactly, whatever the slab thickness and the frequency** -/
+theorem coherent_flat_lossless_V (f a0 a1 a2 d mu0 mu1 mu2' : ℝ) (h0 : 0 < a0) (h1 : 0 < a1) (h2 : 0 < a2)
+    (hm0 : 0 < mu0) (hm1 : 1e-4 ≤ mu1) (hm2 : 0 < mu2')
+    (s01 : a0 * (1 - mu0 * mu0) = a1 * (1 - mu1 * mu1)) (s12 : a1 * (1 - mu1 * mu1) = a2 * (1 - mu2' * mu2')) :
+    specV f (⟨a0, 0⟩ : Cx ℝ) ⟨a1, 0⟩ ⟨a2, 0⟩ d mu0 + transV f (⟨a0, 0⟩ : Cx ℝ) ⟨a1, 0⟩ ⟨a2, 0⟩ d mu0 = 1 := by
+  have hm1' : 0 < mu1 := lt_of_lt_of_le (by norm_num) hm1
+  have hmuS : muSlab (⟨a0, 0⟩ : Cx ℝ) ⟨a1, 0⟩ mu0 = mu1 := mu2_real a0 a1 mu0 mu1 h0 h1 hm1' s01
+  have hmc : muClamped (⟨a0, 0⟩ : Cx ℝ) ⟨a1, 0⟩ mu0 = mu1 := by
+    unfold muClamped; rw [hmuS, if_neg (not_lt.mpr hm1)]
+  have s0 : 0 < Real.sqrt a0 := Real.sqrt_pos.mpr h0
+  have s1 : 0 < Real.sqrt a1 := Real.sqrt_pos.mpr h1
+  have s2 : 0 < Real.sqrt a2 := Real.sqrt_pos.mpr h2
+  have q0pos : 0 < mu0 / Real.sqrt a0 := div_pos hm0 s0
+  have q1pos : 0 < mu1 / Real.sqrt a1 := div_pos hm1' s1
+  have q2pos : 0 < mu2' / Real.sqrt a2 := div_pos hm2 s2
+  have h01 := rv_real a0 a1 mu0 mu1 h0 h1 hm0 hm1' s01
+  have h1t : rv (⟨a1, 0⟩ : Cx ℝ) ⟨a2, 0⟩ (muClamped (⟨a0, 0⟩ : Cx ℝ) ⟨a1, 0⟩ mu0)
+      = ⟨(mu1 / Real.sqrt a1 - mu2' / Real.sqrt a2) / (mu1 / Real.sqrt a1 + mu2' / Real.sqrt a2), 0⟩ := by
+    rw [hmc]; exact rv_real a1 a2 mu1 mu2' h1 h2 hm1' hm2 s12
+  have hph : (phase f (⟨a0, 0⟩ : Cx ℝ) ⟨a1, 0⟩ d mu0).im = 0 := by
+    unfold phase; rw [csqrt_real_nonneg a1 h1.le]; simp [Cx.smul]
+  obtain ⟨b01l, b01u⟩ := face_bounds _ _ q0pos q1pos
+  obtain ⟨b1tl, b1tu⟩ := face_bounds _ _ q1pos q2pos
+  have hK : muT (⟨a0, 0⟩ : Cx ℝ) ⟨a1, 0⟩ ⟨a2, 0⟩ mu0 / mu0 / nt (⟨a0, 0⟩ : Cx ℝ) ⟨a2, 0⟩
+      = (1 - (mu0 / Real.sqrt a0 - mu1 / Real.sqrt a1) / (mu0 / Real.sqrt a0 + mu1 / Real.sqrt a1))
+        * (1 - (mu1 / Real.sqrt a1 - mu2' / Real.sqrt a2) / (mu1 / Real.sqrt a1 + mu2' / Real.sqrt a2))
+        / ((1 + (mu0 / Real.sqrt a0 - mu1 / Real.sqrt a1) / (mu0 / Real.sqrt a0 + mu1 / Real.sqrt a1))
+           * (1 + (mu1 / Real.sqrt a1 - mu2' / Real.sqrt a2) / (mu1 / Real.sqrt a1 + mu2' / Real.sqrt a2))) := by
+    have hmT : muT (⟨a0, 0⟩ : Cx ℝ) ⟨a1, 0⟩ ⟨a2, 0⟩ mu0 = mu2' := by
+      unfold muT; rw [hmc]; exact mu2_real a1 a2 mu1 mu2' h1 h2 hm2 s12
+    have hnt : nt (⟨a0, 0⟩ : Cx ℝ) ⟨a2, 0⟩ = Real.sqrt a2 / Real.sqrt a0 := by
+      unfold nt; rw [real_div_real _ _ h0.ne', csqrt_real_nonneg _ (div_nonneg h2.le h0.le), Real.sqrt_div h2.le]
+    rw [hmT, hnt]
+    have e1 : mu2' / mu0 / (Real.sqrt a2 / Real.sqrt a0) = (mu2' / Real.sqrt a2) / (mu0 / Real.sqrt a0) := by
+      field_simp
+    rw [e1]
+    exact K_algebra _ _ _ q0pos q1pos q2pos
+  have hden : ((one : Cx ℝ) + (⟨(mu0 / Real.sqrt a0 - mu1 / Real.sqrt a1) / (mu0 / Real.sqrt a0 + mu1 / Real.sqrt a1), 0⟩ : Cx ℝ)
+      * ⟨(mu1 / Real.sqrt a1 - mu2' / Real.sqrt a2) / (mu1 / Real.sqrt a1 + mu2' / Real.sqrt a2), 0⟩
+      * exp2Kd f (⟨a0, 0⟩ : Cx ℝ) ⟨a1, 0⟩ d mu0).abs2 ≠ 0 := by
+    obtain ⟨_, he2⟩ := pure_phase f (⟨a0, 0⟩ : Cx ℝ) ⟨a1, 0⟩ d mu0 hph
+    generalize exp2Kd f (⟨a0, 0⟩ : Cx ℝ) ⟨a1, 0⟩ d mu0 = e at he2 ⊢
+    generalize (mu0 / Real.sqrt a0 - mu1 / Real.sqrt a1) / (mu0 / Real.sqrt a0 + mu1 / Real.sqrt a1) = r01 at b01l b01u ⊢
+    generalize (mu1 / Real.sqrt a1 - mu2' / Real.sqrt a2) / (mu1 / Real.sqrt a1 + mu2' / Real.sqrt a2) = r1t at b1tl b1tu ⊢
+    have hD : ((one : Cx ℝ) + (⟨r01, 0⟩ : Cx ℝ) * ⟨r1t, 0⟩ * e).abs2 = 1 + 2 * (r01 * r1t) * e.re + (r01 * r1t) ^ 2 := by
+      have he2' := he2
+      simp only [Cx.abs2, add_re, add_im, mul_re, mul_im, one_re, one_im] at he2' ⊢
+      linear_combination (r01 ^ 2 * r1t ^ 2) * he2'
+    rw [hD]
+    have hrl : -1 < r01 * r1t := by nlinarith [mul_pos (sub_pos.mpr b01u) (sub_pos.mpr b1tu), mul_pos (by linarith : 0 < 1 + r01) (by linarith : 0 < 1 + r1t)]
+    have hru : r01 * r1t < 1 := by nlinarith [mul_pos (sub_pos.mpr b01u) (by linarith : 0 < 1 + r1t), mul_pos (by linarith : 0 < 1 + r01) (sub_pos.mpr b1tu)]
+    exact (den_pos (r01 * r1t) e he2 hrl hru).ne'
+  exact coherent_flat_lossless_V_partial f _ _ _ d mu0 _ _ h01 h1t hph hK hden (by linarith) (by linarith)
+/-- the hypotheses are satisfiable by a non-trivial slab: an ice-like slab (ε = 3) between air and a medium with ε = 2, normal incidence,
+    any thickness and frequency, both polarisations -/
+example (f d : ℝ) : specH f (⟨1, 0⟩ : Cx ℝ) ⟨3, 0⟩ ⟨2, 0⟩ d 1 + transH f (⟨1, 0⟩ : Cx ℝ) ⟨3, 0⟩ ⟨2, 0⟩ d 1 = 1
+    ∧ specV f (⟨1, 0⟩ : Cx ℝ) ⟨3, 0⟩ ⟨2, 0⟩ d 1 + transV f (⟨1, 0⟩ : Cx ℝ) ⟨3, 0⟩ ⟨2, 0⟩ d 1 = 1 :=
+  ⟨coherent_flat_lossless_H f 1 3 2 d 1 1 1 (by norm_num) (by norm_num) (by norm_num) (by norm_num) (by norm_num) (by norm_num)
+    (by norm_num) (by norm_num),
+   coherent_flat_lossless_V f 1 3 2 d 1 1 1 (by norm_num) (by norm_num) (by norm_num) (by norm_num) (by norm_num) (by norm_num)
+    (by norm_num) (by norm_num)⟩
 end Slab
 
 end Smrt.Props.C12
